@@ -1,11 +1,11 @@
 SPECIFICATION Spec
-CONSTANTS MaxLen = 4
-  Pool <- Pool3U
-  Starts <- StartsAll
+CONSTANTS MaxLen = 3
+  Pool <- PoolK6
+  Starts <- StartsK6
   Xs = {2}
-  Nested = TRUE
-  Ys <- NoData
-  Extra <- NoElems
+  Nested = FALSE
+  Ys <- DataK6
+  Extra <- ExtraK6
   Variant = "doc"
   CopyVarContext = TRUE
   ExtendByCompose = TRUE
